@@ -266,6 +266,85 @@ def decodeStepBuggy (L : Limits) (src : List Nat) : Step :=
   | .incomplete => .needMore
   | .ok => codecDecode L.max src
 
+/-! ## the codec's constructor parameters and the per-topic message-size check -/
+
+/-- `GossipsubCodec`: what `GossipsubCodec::new(global_max_transmit_size, validation_mode,
+max_transmit_sizes, max_publish_messages, max_control_message_size)` stores.  The FRAME bound —
+both the `max_message_size` handed to `validate_rpc_limits` and the inner
+`prost_codec::Codec::new(global_max_transmit_size)` — is the GLOBAL max, whatever the per-topic
+map contains (also when a topic's max is larger than the global one). -/
+structure Codec where
+  L : Limits
+  perTopic : List (List Nat × Nat)     -- max_transmit_sizes (topic bytes ↦ max)
+deriving Repr
+
+/-- `GossipsubCodec::new` -/
+def Codec.new (globalMax : Nat) (perTopic : List (List Nat × Nat)) (maxPublish maxControl : Nat) : Codec :=
+  { L := { max := globalMax, maxPublish := maxPublish, maxControl := maxControl }, perTopic := perTopic }
+
+/-- ONE call of `GossipsubCodec::decode` as far as framing goes -/
+def Codec.decodeStep (C : Codec) (src : List Nat) : Step := C31.decodeStep C.L src
+
+/-- `self.max_transmit_sizes.get(topic).copied()` -/
+def Codec.maxFor (C : Codec) (topic : List Nat) : Option Nat :=
+  (C.perTopic.find? (·.1 = topic)).map (·.2)
+
+/-- the payloads of the publish entries (field 2, length-delimited) of an RPC body that passed
+`validate`/`parse` -/
+def publishPayloads : Nat → List Nat → List (List Nat)
+  | 0, _ => []
+  | fuel + 1, buf =>
+    if buf.isEmpty then []
+    else match decodeKey buf with
+      | none => []
+      | some (tag, wt, r) =>
+        match consumeMessage wt tag r with
+        | none => []
+        | some r' =>
+          if tag = 2 ∧ wt = .len then
+            match pbVarint r with
+            | some (l, pl) => pl.take l :: publishPayloads fuel r'
+            | none => publishPayloads fuel r'
+          else publishPayloads fuel r'
+
+/-- the `topic` (field 4, a string) of a nested `Message`: the last occurrence wins, `""` if absent -/
+def msgTopicAux : Nat → List Nat → List Nat → List Nat
+  | 0, _, acc => acc
+  | fuel + 1, buf, acc =>
+    if buf.isEmpty then acc
+    else match decodeKey buf with
+      | none => acc
+      | some (tag, wt, r) =>
+        match consumeMessage wt tag r with
+        | none => acc
+        | some r' =>
+          if tag = 4 ∧ wt = .len then
+            match pbVarint r with
+            | some (l, pl) => msgTopicAux fuel r' (pl.take l)
+            | none => msgTopicAux fuel r' acc
+          else msgTopicAux fuel r' acc
+
+def msgTopic (payload : List Nat) : List Nat := msgTopicAux payload.length payload []
+
+/-- the per-message check of `decode`: `max_transmit_size_for_topic(&topic).is_some_and(|max|
+message.encoded_len() > max)` — the message goes to `invalid_messages` with
+`MessageSizeTooLargeForTopic`, the RPC is still delivered.  (`encoded_len` of a canonically
+encoded message = the length of its payload.) -/
+def Codec.tooLargeForTopic (C : Codec) (payload : List Nat) : Bool :=
+  match C.maxFor (msgTopic payload) with
+  | some max => payload.length > max
+  | none => false
+
+/-- number of publish entries of a decoded RPC body rejected by the per-topic check -/
+def Codec.invalidCount (C : Codec) (body : List Nat) : Nat :=
+  ((publishPayloads body.length body).filter C.tooLargeForTopic).length
+
+/-- the RPC body of the complete frame at the front of `buf` -/
+def frameBody (buf : List Nat) : List Nat :=
+  match uvDecode 0 buf with
+  | .ok n rem => rem.take n
+  | _ => []
+
 /-! ## the `FramedRead` loop -/
 
 /-- decode from the buffer until "need more" or an error -/
